@@ -74,23 +74,10 @@ func newExpoHistogramDataPoint[N int64 | float64](
 
 // record adds a new measurement to the histogram. It will rescale the buckets if needed.
 func (p *expoHistogramDataPoint[N]) record(v N) {
-	p.count++
-
-	if !p.noMinMax {
-		if v < p.min {
-			p.min = v
-		}
-		if v > p.max {
-			p.max = v
-		}
-	}
-	if !p.noSum {
-		p.sum += v
-	}
-
 	absV := math.Abs(float64(v))
 
 	if float64(absV) == 0.0 {
+		p.addToTotals(v)
 		p.zeroCount++
 		return
 	}
@@ -119,7 +106,27 @@ func (p *expoHistogramDataPoint[N]) record(v N) {
 		bin = p.getBin(absV)
 	}
 
+	p.addToTotals(v)
 	bucket.record(bin)
+}
+
+// addToTotals adds v to the count, sum, min and max of the data point. It is only
+// called for measurements that are also added to a bucket, so that the count
+// always equals the sum of all bucket counts.
+func (p *expoHistogramDataPoint[N]) addToTotals(v N) {
+	p.count++
+
+	if !p.noMinMax {
+		if v < p.min {
+			p.min = v
+		}
+		if v > p.max {
+			p.max = v
+		}
+	}
+	if !p.noSum {
+		p.sum += v
+	}
 }
 
 // getBin returns the bin v should be recorded into.
